@@ -402,7 +402,7 @@ def gen_case(rng, maxops=8):
             q = [rng.randrange(4), rng.randrange(4), rng.randrange(4)]
             o_ = None if rng.random() < 0.5 else pt(rng)
             ops.append(["rotate_euler", m, q, o_, rng.random() < 0.5])
-            if rng.random() < 0.3:       # and back: the inverse of Rz Ry Rx applied as three single-axis calls
+            if rng.random() < 0.3 and sum(1 for a in q if a) <= 1:   # and back (one axis: no convention involved)
                 ops.append(["rotate_euler", m, [0, 0, (4 - q[2]) % 4], o_, False])
                 ops.append(["rotate_euler", m, [0, (4 - q[1]) % 4, 0], o_, True])
                 ops.append(["rotate_euler", m, [(4 - q[0]) % 4, 0, 0], o_, False])
